@@ -75,7 +75,7 @@ struct W { int id, kind, cb, live; long long x; void *watch; };
 static Tickit *T;
 static struct W ws[MAXW];
 static int nws;
-static char *cbs[MAXCB], *ubs[MAXCB];
+static char *cbs[MAXCB], *ubs[MAXCB], *dbs[MAXCB];
 static long long vclock;
 static int iter;
 static int fds[NFD];            /* read ends of pipes */
@@ -169,6 +169,9 @@ static int on_ev(Tickit *t, TickitEventFlags flags, void *info, void *user)
   if((flags & TICKIT_EV_FIRE) && w->kind == K_PROC) w->live = 0;   /* a process watch is gone once its callback returns */
   if(flags == TICKIT_EV_UNBIND && w->cb >= 0 && w->cb < MAXCB && ubs[w->cb])
     run_acts(ubs[w->cb], 2);
+  /* db<k>: what the handler does when tickit_destroy notifies it (UNBIND|DESTROY) */
+  if((flags & TICKIT_EV_DESTROY) && w->cb >= 0 && w->cb < MAXCB && dbs[w->cb])
+    run_acts(dbs[w->cb], 3);
   return 0;
 }
 
@@ -191,6 +194,16 @@ static int do_act(const char *a)
 {
   long long p[4] = {0, 0, 0, 0};
   if(a[0] == '-' && a[1] == 0) return 1;
+  if(a[0] == 't' && (a[1] == 'a' || a[1] == 'u')) {
+    /* ta<msec>:<fl>:<cb> = tickit_watch_timer_after_msec, tu<usec>:<fl>:<cb> = tickit_watch_timer_after_tv */
+    sscanf(a + 2, "%lld:%lld:%lld", &p[0], &p[1], &p[2]);
+    long long usec = a[1] == 'a' ? p[0] * 1000 : p[0];
+    struct W *w = neww(K_TIMER, p[2], vclock + usec);
+    if(!w) return 1;
+    if(a[1] == 'a') w->watch = tickit_watch_timer_after_msec(T, (int)p[0], p[1], on_ev, w);
+    else { struct timeval tv = { .tv_sec = usec / 1000000, .tv_usec = usec % 1000000 }; w->watch = tickit_watch_timer_after_tv(T, &tv, p[1], on_ev, w); }
+    return 1;
+  }
   if(a[0] == 't') {
     sscanf(a + 1, "%lld:%lld:%lld", &p[0], &p[1], &p[2]);
     long long at = vclock + p[0];
@@ -245,6 +258,7 @@ static int do_act(const char *a)
   }
   if(a[0] == 'w' && a[1] == 'r' && a[2] == 0) { hold_root = 1; return 1; }   /* the application keeps a reference on the root window beyond the instance */
   if(a[0] == 'z' && a[1] == 'w' && a[2] == 0) { winch_seq = 1; return 1; }   /* after the case: observe SIGWINCH on terminals A, B; stop on A; again on A; on C */
+  if(a[0] == 'n' && a[1] == 0) { iter++; tickit_tick(T, TICKIT_RUN_NOHANG | TICKIT_RUN_NOSETUP); return 1; }   /* a nested iteration, from inside a callback */
   if(a[0] == 's' && a[1] == 0) { tickit_stop(T); return 1; }
   if(a[0] == 'd' && a[1] == 0) { if(T && !dropped) { dropped = 1; tickit_unref(T); } return 1; }   /* drop the application's reference */
   if(a[0] == 'e') { errno = atoi(a + 1); return 1; }
@@ -334,7 +348,7 @@ static void loop_case(void)
   size_t heap_before = __sanitizer_get_current_allocated_bytes();
   outn = 0; out[0] = 0;
   nws = 0; vclock = 0; iter = 0; ninwait = 0; sleep_mode = 0; run_mode = 0; dropped = 0; hold_root = 0; winch_seq = 0;
-  for(int i = 0; i < MAXCB; i++) cbs[i] = ubs[i] = NULL;
+  for(int i = 0; i < MAXCB; i++) cbs[i] = ubs[i] = dbs[i] = NULL;
   for(int i = 0; i < MAXW; i++) child_status[i] = -1;
   for(int j = 0; j < NFD; j++) ready[j] = 0;
   int fallback = vh_ntok > 0 && strcmp(vh_tok[0], "F") == 0;
@@ -344,10 +358,10 @@ static void loop_case(void)
   for(int i = fallback + chaincase; i < vh_ntok; i++) {
     char *a = vh_tok[i];
     if(dropped) break;      /* the instance is gone */
-    if((a[0] == 'c' || a[0] == 'u') && a[1] == 'b') {
+    if((a[0] == 'c' || a[0] == 'u' || a[0] == 'd') && a[1] == 'b') {
       char *eq = strchr(a, '=');
       int k = atoi(a + 2);
-      if(eq && k >= 0 && k < MAXCB) { if(a[0] == 'c') cbs[k] = eq + 1; else ubs[k] = eq + 1; }
+      if(eq && k >= 0 && k < MAXCB) { if(a[0] == 'c') cbs[k] = eq + 1; else if(a[0] == 'u') ubs[k] = eq + 1; else dbs[k] = eq + 1; }
       continue;
     }
     if(do_act(a)) continue;
